@@ -364,6 +364,8 @@ void Exec::op_foreign(Client &c) {
 	if (trace) { int ln = 0; for (auto &l : split(text, '\n')) { if (ln++ > 80) break; out_line("F   " + l.substr(0, 300)); } }
 	// does the text denote exactly the model?  not when the MPS rendering repeats an entry (what a repeated entry means is not defined)
 	files[path].precond = !(fmt == "MPS" && modn(op->i("style", 0), 11) == 5);
+	// ... and not when an LP rendering spells a name that is no LP token (the renderer does no name repair: "a-b" reads as a difference)
+	if (fmt == "LP") { for (auto &cc : lp->cols) if (!plain_name(cc.name)) files[path].precond = false; for (auto &rr : lp->rows) if (!plain_name(rr.name)) files[path].precond = false; }
 	if (!malwhat.empty()) { files[path].hit = true; res.faults_fired["io.malformed_problem"]++; T("  malformed: " + malwhat); }
 }
 
